@@ -12,4 +12,5 @@ import (
 	_ "verif/scenarios/c15"
 	_ "verif/scenarios/c16"
 	_ "verif/scenarios/c17"
+	_ "verif/scenarios/c19"
 )
